@@ -46,6 +46,7 @@ def strategy_case(draw):
                 "int8": [None, "int16", "float32"]}[dtype]
         c["data_type"] = draw(st.sampled_from(cast))
         c["read_transpose"] = c["transpose"]
+        c["read_dtype"] = draw(st.sampled_from([None, "float32", "float64", "int32"]))
         c["preexisting"] = draw(st.sampled_from([None, None, "overwrite", "no_overwrite"]))
     elif op in ("em2mrc", "mrc2em"):
         c["invert"] = draw(st.booleans())
@@ -169,6 +170,20 @@ def run(case):
             if out.check(tuple(b.shape) == tuple(logical.shape), "read:shape", f"{b.shape} vs {logical.shape}"):
                 out.check(np.array_equal(b, logical), "read:values", lambda: f"first diff {np.argwhere(b != logical)[0].tolist()}")
                 out.check(b.dtype == logical.dtype, "read:dtype", f"{b.dtype} vs {logical.dtype}")
+        # the data_type option of read(): the same voxels in the requested type (the harness only asks for value-preserving
+        # casts: every stored type widens losslessly to float64; int32 only when the stored values are integral)
+        rdt = case.get("read_dtype")
+        if ok and rdt is not None and (rdt != "int32" or logical.dtype.kind in "iu") and (rdt != "float32" or logical.dtype.itemsize <= 4 and logical.dtype != np.int32):
+            out.label(f"read_as:{rdt}")
+            okd, bd = call(out, "cryomap.read(data_type)", lambda: cryomap.read(path, transpose=case["read_transpose"], data_type=np.dtype(rdt).type))
+            if okd:
+                out.check(bd.dtype == np.dtype(rdt), "read:data_type_not_applied", f"{bd.dtype} vs {rdt}")
+                out.check(tuple(bd.shape) == tuple(logical.shape) and np.array_equal(bd.astype(np.float64), logical.astype(np.float64)), "read:values_with_data_type", "")
+            # an array instead of a path: the same values, as a copy the caller may change
+            oka, ba = call(out, "cryomap.read(array)", lambda: cryomap.read(logical, data_type=np.dtype(rdt).type))
+            if oka:
+                out.check(ba.dtype == np.dtype(rdt) and np.array_equal(ba.astype(np.float64), logical.astype(np.float64)), "read:array_input_values", f"{ba.dtype}")
+                out.check(not np.shares_memory(ba, logical), "read:array_input_aliased", "")
         # what read() returns belongs to the caller: changing it in place must not change what the next read of the file returns
         if ok and case["read_transpose"] and isinstance(b, np.ndarray) and b.size:
             try:
